@@ -319,7 +319,7 @@ CHECKS["C09"] = {
               "server answers is well-formed and goes to the sender, HandleInbound returns the documented (handled, error) class and never "
               "(false, err), and a liveness probe afterwards is served (Binding from the same and from a fresh source, existing "
               "allocations still refresh and relay, a new control connection is accepted, the client completes a transaction)."),
-    "level_note": _SRV_NOTE + " TLS/DTLS record layers are outside the repository and are not fuzzed; the TLS listener shares readLoop/STUNConn with the TCP listener, which is what is exercised. A busy loop that neither logs nor consumes input shows up as a time-budget overrun (exit 2, inconclusive), not as a violation.",
+    "level_note": _SRV_NOTE + " The TLS/DTLS record layers are outside the repository and are not fuzzed themselves; the tls-listener stage puts a real crypto/tls listener over simnet in front of the server and delivers stalled, truncated and garbage handshakes and post-handshake garbage (the bytes inside the TLS stream otherwise go through the readLoop/STUNConn path that the TCP stage exercises). DTLS listeners are not exercised. A busy loop that neither logs nor consumes input shows up as a time-budget overrun (exit 2, inconclusive), not as a violation.",
     "technique": "property-based testing / fuzzing: seed-derived structured mutation of valid messages and header grids in generated world states, crash isolation by journaling, liveness probes; native go fuzz targets in the thorough tier",
     "rule": "non-trivial = the input passes the first demultiplexing test (looks like STUN or ChannelData) without being a valid message, or is delivered in a non-initial state (allocation / permission / channel / pending transaction exists); distinct by hash of the script",
     "assumptions": [],
@@ -330,6 +330,9 @@ CHECKS["C09"] = {
         {"name": "stream-listener", "pkg": "srvworld", "run": "^TestC09Stream$",
          "quick": {"shards": 3, "checks": 1500, "timeout_s": 420},
          "thorough": {"shards": 16, "checks": 8000, "size": 40, "timeout_s": 2400}},
+        {"name": "tls-listener", "pkg": "srvworld", "run": "^TestC09TLS$",
+         "quick": {"shards": 2, "checks": 150, "timeout_s": 400},
+         "thorough": {"shards": 8, "checks": 2500, "timeout_s": 2000}},
         {"name": "client-inbound", "pkg": "cliworld", "run": "^TestC09Client$",
          "quick": {"shards": 3, "checks": 1500, "timeout_s": 420},
          "thorough": {"shards": 16, "checks": 20000, "timeout_s": 2400}},
